@@ -48,7 +48,7 @@ def r1(ctx):
     site = P.body(key).get("def_span")
     eng, conv = engine(P)
     leaves = eng.tabulate(key)
-    mv = ("param", 1, "mv")
+    mv = ("param", 1, "a1")
     decoded = ("app", conv, (mv,))
     gate = ("app", MOVE_MUT, (fieldref("board"), decoded))
     MR = "chess_api::MoveResult"
@@ -122,7 +122,7 @@ def r3(ctx):
         names = [f["name"] for f in P.adt(BOT + "ChessBot")["variants"][0]["fields"]]
         b = T.get_path(final, (("f", names.index("board"), "board", None),))
         tf = T.get_path(final, (("f", names.index("three_fold"), "three_fold", None),))
-        ok = b == ("param", 1, "board") and tf == ("app", NEW, ())
+        ok = b == ("param", 1, "a1") and tf == ("app", NEW, ())
     ctx.ob("set_board", ok, "set_board does not store the given board together with a fresh ThreeFold::new()", site=P.body(key).get("def_span"), sample="board := arg; three_fold := ThreeFold::new()")
     key = method(P, "board")
     ctx.used_body(key)
